@@ -1,0 +1,45 @@
+//go:build verif
+
+package names
+
+import (
+	"sort"
+	"strconv"
+	"strings"
+)
+
+// VerifEscapeRDNAttrValue exposes escapeRDNAttrValue to the verification
+// harness (see /verif, property C15). Not compiled without the "verif" tag.
+func VerifEscapeRDNAttrValue(s string) string {
+	return escapeRDNAttrValue(s)
+}
+
+// VerifX500AttrTypes returns the OID -> display name table as (dotted OID, name)
+// pairs, sorted by OID (arc by arc, numerically).
+func VerifX500AttrTypes() [][2]string {
+	out := make([][2]string, 0, len(X500AttrTypesByOid))
+	for k, v := range X500AttrTypesByOid {
+		out = append(out, [2]string{k, v})
+	}
+	arcs := func(s string) []int {
+		var a []int
+		for _, p := range strings.Split(s, ".") {
+			n, _ := strconv.Atoi(p)
+			a = append(a, n)
+		}
+		return a
+	}
+	sort.Slice(out, func(i, j int) bool {
+		a, b := arcs(out[i][0]), arcs(out[j][0])
+		for k := 0; k < len(a) && k < len(b); k++ {
+			if a[k] != b[k] {
+				return a[k] < b[k]
+			}
+		}
+		if len(a) != len(b) {
+			return len(a) < len(b)
+		}
+		return out[i][0] < out[j][0]
+	})
+	return out
+}
